@@ -55,7 +55,8 @@ func nativeReplay(repo, verifDir, cfgDir string, cfg Config, rc RunCfg, replayPa
 		return false, err.Error()
 	}
 	defer os.RemoveAll(tmp)
-	pkgDir := filepath.Join(repo, strings.TrimPrefix(rc.Pkg, "./"))
+	pkg0 := strings.Fields(rc.Pkg)[0]
+	pkgDir := filepath.Join(repo, strings.TrimPrefix(pkg0, "./"))
 	pkgName, err := packageName(pkgDir)
 	if err != nil {
 		return false, err.Error()
@@ -100,7 +101,7 @@ func nativeReplay(repo, verifDir, cfgDir string, cfg Config, rc RunCfg, replayPa
 	ovPath := filepath.Join(tmp, "overlay.json")
 	os.WriteFile(ovPath, ov, 0o644)
 	tags := strings.Join(append([]string{"verif"}, rc.Tags...), ",")
-	cmd := exec.Command("go", "test", "-tags", tags, "-overlay", ovPath, "-vet=off", "-count=1", "-run", "^TestVerifReplay$", "-v", rc.Pkg)
+	cmd := exec.Command("go", "test", "-tags", tags, "-overlay", ovPath, "-vet=off", "-count=1", "-run", "^TestVerifReplay$", "-v", pkg0)
 	cmd.Dir = repo
 	cmd.Env = append(os.Environ(), "PATH=/opt/veriftools/go1.26.8/bin:"+os.Getenv("PATH"), "GOFLAGS=-mod=mod", "GOPROXY=off", "GOTOOLCHAIN=local", "VERIF_REPLAY="+replayPath)
 	done := make(chan struct{})
